@@ -15,6 +15,9 @@ extstrip = None
 class LinkEntry(GopherEntry):
     def __init__(self, selector: str, config: configparser.ConfigParser):
         super().__init__(selector, config)
+        # A link block only overrides the fields it sets: the number is unset
+        # (not 0) until a Numb= line is seen.
+        self.num = None
         self.needsmerge = False
         self.needsabspath = False
 
